@@ -903,6 +903,7 @@ func binOneRun(r *mon.Run, eng, bin string, fx fixtures, i, k int, c binCase, ho
 	var s *crs.Session
 	var args []string
 	var la string
+	var flagOrder []int
 	if form == form443 {
 		// released after the child is gone (deferred before s.Close)
 		mu443.Lock()
@@ -913,28 +914,63 @@ func binOneRun(r *mon.Run, eng, bin string, fx fixtures, i, k int, c binCase, ho
 		if form == form443 {
 			la = cand443(c.Rot, try)
 		}
-		args = []string{"-listen-address", la}
+		// the command line is a set of flags: what the program prints must not depend on
+		// the order they are given in, so every run gets its own order (the callback
+		// addresses keep their relative order: that one is meaningful)
+		groups := [][]string{{"-listen-address", la}}
 		for _, a := range c.CBs {
-			args = append(args, "-callback-address", a)
+			groups = append(groups, []string{"-callback-address", a})
 		}
 		if d := fx.fdir(c.FDir); d != "" {
-			args = append(args, "-serve-files-from", d)
+			groups = append(groups, []string{"-serve-files-from", d})
 		}
 		if c.IPv6 {
-			args = append(args, "-ipv6-one-liners")
+			groups = append(groups, []string{"-ipv6-one-liners"})
 		}
 		if c.Tmpl == "custom" {
-			args = append(args, "-callback-template", fx.custom)
+			groups = append(groups, []string{"-callback-template", fx.custom})
 		}
 		if c.NoTS {
-			args = append(args, "-no-timestamps")
+			groups = append(groups, []string{"-no-timestamps"})
 		}
 		switch c.Cache {
 		case "off":
-			args = append(args, "-tls-certificate-cache", "")
+			groups = append(groups, []string{"-tls-certificate-cache", ""})
 		case "default-path":
 		default:
-			args = append(args, "-tls-certificate-cache", cachePath)
+			groups = append(groups, []string{"-tls-certificate-cache", cachePath})
+		}
+		if try == 0 {
+			ord := r.Rng(eng+"flag-order", i*16+k).Perm(len(groups))
+			if (i+k)%2 == 0 { // every other run: the listen address comes last
+				for j, v := range ord {
+					if v == 0 {
+						ord[j], ord[len(ord)-1] = ord[len(ord)-1], 0
+					}
+				}
+			}
+			flagOrder = ord
+		}
+		args = nil
+		// callback addresses in their given order at the positions the permutation chose
+		nextCB := 1
+		laSeen, cbBeforeLA := false, false
+		for _, v := range flagOrder {
+			g := groups[v]
+			if g[0] == "-callback-address" {
+				g = groups[nextCB]
+				nextCB++
+				if !laSeen {
+					cbBeforeLA = true
+				}
+			}
+			if g[0] == "-listen-address" {
+				laSeen = true
+			}
+			args = append(args, g...)
+		}
+		if try == 0 && cbBeforeLA {
+			r.Count("runs_with_a_callback_address_before_the_listen_address", 1)
 		}
 		var err error
 		if form == form443 {
@@ -1712,6 +1748,7 @@ func Run(r *mon.Run) {
 		return a
 	}
 	r.Floor("binary_runs", q(16, 200))
+	r.Floor("runs_with_a_callback_address_before_the_listen_address", q(5, 60))
 	r.Floor("inproc_servers", q(60, 500))
 	// the cache changes under a running listener
 	r.Floor("cache_changed_under_listener_cases", q(40, 350))
